@@ -666,10 +666,34 @@ Lemma sha256_length msg : length (sha256 msg) = 32.
 Proof. unfold sha256. apply digest_of_length. apply blocks_length. reflexivity. Qed.
 Lemma tagged_hash_length tag msg : length (tagged_hash tag msg) = 32.
 Proof. unfold tagged_hash. exact (sha256_length _). Qed.
+(* the precomputed-tag form is the BIP-340 tagged hash *)
+Lemma tagged_from_mid_spec tag msg :
+  tagged_from_mid (tag_prefix tag) (tag_mid tag) msg = tagged_hash tag msg.
+Proof.
+  unfold tagged_hash, tagged_from_mid, tag_mid, tag_prefix. cbv zeta.
+  assert (Ht : length (sha256 tag ++ sha256 tag) = 64) by (rewrite app_length, sha256_length; reflexivity).
+  rewrite (app_assoc (sha256 tag) (sha256 tag) msg). set (pre := sha256 tag ++ sha256 tag) in *.
+  clearbody pre. unfold sha256.
+  assert (Hp : exists rest, pad (pre ++ msg) = pre ++ rest).
+  { unfold pad. rewrite <- app_assoc. eauto. }
+  destruct Hp as (rest & Hp). rewrite Hp.
+  cbn [blocks]. destruct (pre ++ rest) eqn:E.
+  { destruct pre; [discriminate Ht|discriminate E]. }
+  rewrite <- E. rewrite firstn_app, Ht, Nat.sub_diag, firstn_O, app_nil_r, firstn_all2 by lia.
+  reflexivity.
+Qed.
+
+Lemma leaf_hash_spec l : leaf_hash l = tagged_hash tag_leaf (tlf_version l :: var_slice (tlf_script l)).
+Proof. unfold leaf_hash, leaf_pre, leaf_mid. exact (tagged_from_mid_spec _ _). Qed.
+Lemma branch_hash_raw_spec a b : branch_hash_raw a b = tagged_hash tag_branch (a ++ b).
+Proof. unfold branch_hash_raw, branch_pre, branch_mid. exact (tagged_from_mid_spec _ _). Qed.
+Lemma tweak_hash_spec kx root : tweak_hash kx root = tagged_hash tag_tweak (kx ++ root).
+Proof. unfold tweak_hash, tweak_pre, tweak_mid. exact (tagged_from_mid_spec _ _). Qed.
+
 Lemma leaf_hash_length l : length (leaf_hash l) = 32.
-Proof. unfold leaf_hash. exact (tagged_hash_length _ _). Qed.
+Proof. rewrite leaf_hash_spec. exact (tagged_hash_length _ _). Qed.
 Lemma branch_hash_raw_length a b : length (branch_hash_raw a b) = 32.
-Proof. unfold branch_hash_raw. exact (tagged_hash_length _ _). Qed.
+Proof. rewrite branch_hash_raw_spec. exact (tagged_hash_length _ _). Qed.
 
 (* the executable instance: for every list of leaves with distinct Elements leaf hashes *)
 Theorem every_leaf_proves_root_sha ls :
